@@ -504,6 +504,11 @@ impl<'d> Exec<'d> {
             ),
             None => (false, false, [false; 3]),
         };
+        // A client that spins inside one call will do so in every later call too: after a few
+        // exhausted I/O budgets the case ends, so that its event log stays bounded.
+        if self.world.borrow().watchdog_trips >= 3 {
+            return None;
+        }
         let s = {
             let w = self.world.borrow();
             let view = View {
